@@ -8,7 +8,8 @@
 EXTENDS Number, Json
 
 Undefined == ""
-\* the 16 documented type names (the internal "comment" type is outside the domain, DESIGN C20)
+\* the 16 documented type names; the internal "comment" type takes part in the pairs only: it is related to itself
+\* and to nothing else, in either direction (the wildcards are "the same as any other *value* type")
 Types == {"string","integer","float","decimal","boolean","object","array","null",
           "email","uri","uuid","date","datetime","enum","mixed","any"}
 Wild      == {"enum","mixed","any"}                       \* the same as any other type
@@ -16,8 +17,10 @@ StringFam == {"string","email","uri","uuid","date","datetime"}
 FloatFam  == {"float","decimal"}
 FamilyOf(t) == IF t \in StringFam THEN "string-family" ELSE IF t \in FloatFam THEN "float-family" ELSE t
 
-SoftEq(a, b) == /\ a \in Types /\ b \in Types
-                /\ (a = b \/ a \in Wild \/ b \in Wild \/ FamilyOf(a) = FamilyOf(b))
+Comment == "comment"
+SoftEq(a, b) == IF a = Comment \/ b = Comment THEN a = b
+                ELSE /\ a \in Types /\ b \in Types
+                     /\ (a = b \/ a \in Wild \/ b \in Wild \/ FamilyOf(a) = FamilyOf(b))
 
 \* near misses that must not be valid type names
 NearMisses == {"", "String", "int", "number", "bool", "Integer", "strin", "strings", " string", "date-time",
@@ -57,7 +60,7 @@ TvInit == Init /\ ta = "none" /\ tb = "none"
 PickA(t) == ta = "none" /\ txt = <<>> /\ ta' = t /\ UNCHANGED <<ctl, txt, first, phase, tb>>
 PickB(t) == ta # "none" /\ tb = "none" /\ tb' = t /\ UNCHANGED <<ctl, txt, first, phase, ta>>
 TypeNumber(c) == ta = "none" /\ Feed(c) /\ UNCHANGED <<ta, tb>>
-TvNext == \/ \E t \in Types \cup {Undefined} : PickA(t) \/ PickB(t)
+TvNext == \/ \E t \in Types \cup {Undefined, Comment} : PickA(t) \/ PickB(t)
           \/ \E c \in Chars : TypeNumber(c)
 TvSpec == TvInit /\ [][TvNext]_tvVars
 
